@@ -84,20 +84,23 @@ def setStep (s : SSt) (toks : List String) : String × String × Option Nat × S
     let skip : String × String × Option Nat × SSt := ("skip", "-", some 0, s)
     -- byte-wise relocation of the container object: invisible to the model (no part of its state depends on an address)
     if op == "reloc" then (if s.tr then ("ok", "-", some 0, s) else skip) else
-    -- heterogeneous lookups (cmp=transp): the key `Band d` is equivalent to every element v with v / 4 = d
+    -- heterogeneous lookups (cmp=transp): the key `Band d` is equivalent to every element v with v / 4 = d.
+    -- FlatSet: the libstdc++ halving loops with the mixed comparisons `comp(x, k)` / `comp(k, x)`, as composed by flatset.hpp
+    -- (`Gen.FlatSet.*_het`, proved to compute exactly this in Bridge/FlatSetHetBridge.lean); comparator calls are counted
     if op == "hfind" || op == "hhas" || op == "hcnt" || op == "hlb" || op == "hub" then
       let d := nat (rest.headD "0")
       let band := es.filter (fun v => v / 4 == d)
+      let lb := lowerBoundBy (fun v => decide (v / 4 < d)) es 0 sz
+      let ub := upperBoundBy (fun v => decide (d < v / 4)) es 0 sz
+      -- find: lower_bound, then one more call unless it is end()
+      let findCalls := if lb.1 == sz then lb.2 else lb.2 + 1
+      let cm (k : Nat) : Option Nat := if s.small then none else some k
       match op with
-      | "hfind" => ("ok", if band.isEmpty then "end" else "in-band", none, s)
-      | "hhas" => ("ok", if band.isEmpty then "0" else "1", none, s)
-      | "hcnt" => ("ok", toString band.length, none, s)
-      | "hlb" => if s.small then ("bad-op", "-", none, s) else
-          let i := (es.takeWhile (fun v => v / 4 < d)).length
-          ("ok", s!"{valAt es i}@{i}", none, s)
-      | _ => if s.small then ("bad-op", "-", none, s) else
-          let i := (es.takeWhile (fun v => !(d < v / 4))).length
-          ("ok", s!"{valAt es i}@{i}", none, s)
+      | "hfind" => ("ok", if band.isEmpty then "end" else "in-band", cm findCalls, s)
+      | "hhas" => ("ok", if band.isEmpty then "0" else "1", cm findCalls, s)
+      | "hcnt" => ("ok", toString band.length, cm (ub.2 + lb.2), s)
+      | "hlb" => if s.small then ("bad-op", "-", none, s) else ("ok", s!"{valAt es lb.1}@{lb.1}", some lb.2, s)
+      | _ => if s.small then ("bad-op", "-", none, s) else ("ok", s!"{valAt es ub.1}@{ub.1}", some ub.2, s)
     else
     if s.small then
       -- ------------------------------------------------------------------ SmallSet
